@@ -135,6 +135,19 @@ def scan_sources():
         nm = m.group(1)
         if (re.search(r"\b%s\(\s*&" % re.escape(nm), arm) or re.search(r"\b%s\(\s*self" % re.escape(nm), arm)) and "enter_safepoint" not in arm:
             bare_vm.append(enclosing(m.start()))
+    # the collector keeps the other threads stopped for the WHOLE marking: Heap::mark stops them and does not resume
+    # them; mark_and_sweep_new resumes them after mark has returned (seeded change C15-2 resumed them right after their
+    # stacks had been read, while the collecting thread was still queueing its own roots and the marker was tracing)
+    closed = re.sub(r"//[^\n]*", "", open(os.path.join(root, "values/closed.rs"), errors="replace").read())
+    mk = re.search(r"fn mark<'a>\((.*?)\n    \}\n", closed, re.S)
+    ms = re.search(r"fn mark_and_sweep_new<'a>\((.*?)\n    \}\n", closed, re.S)
+    if not mk or not ms:
+        raise TieBroken("Heap::mark / mark_and_sweep_new not found in closed.rs")
+    if "synchronizer.stop_threads()" not in mk.group(1) or "resume_threads()" in mk.group(1):
+        raise TieBroken("Heap::mark no longer keeps the other threads stopped until it returns (stop_threads / resume_threads)")
+    a, b = ms.group(1).find("self.mark("), ms.group(1).find("synchronizer.resume_threads()")
+    if a < 0 or b < a:
+        raise TieBroken("mark_and_sweep_new does not resume the other threads after the marking")
     unknown = sorted(set(x for x in bare_vm if x not in BARE_VM_ALLOWED))
     if unknown:
         raise TieBroken("vm.rs calls a built-in (FuncV) directly, outside a safepoint, in %s: a blocking built-in reached that way "
@@ -519,7 +532,8 @@ def abort_case(d, jit, units, ck=None, delay=None):
     return None
 
 
-VOID_GLOBAL = re.compile(r"not a procedure or function type not supported: #<void>|index out of bounds: the len is \d+ but the index is \d+ @ [^ ]*env\.rs")
+VOID_GLOBAL = re.compile(r"not a procedure or function type not supported: #<void>|free identifier: |FreeIdentifier|"
+                         r"index out of bounds: the len is \d+ but the index is \d+ @ [^ ]*env\.rs")
 
 
 def saw_empty_global_table(d):
